@@ -208,10 +208,8 @@ func writeAudio(a *audio.Audio, addr, v int) {
 
 // pairRun: two runs whose schedules differ only in the values written to the registers of channel ch,
 // which is never routed to side `side` (0 left, 1 right); the samples of that side must be identical.
-func pairRun(id string, seed int64, cycles int) *trace.Scenario {
+func pairRun(id string, seed int64, cycles int, ch, side int) *trace.Scenario {
 	rng := rand.New(rand.NewSource(seed))
-	ch := rng.Intn(4)
-	side := rng.Intn(2)
 	sc := &trace.Scenario{ID: id, Reset: []any{1, 1, "pair", seed, cycles, ch, side}}
 	perr := machine.Try(func() {
 		base := streamSchedule(rng, cycles, ch)
@@ -285,6 +283,12 @@ func pairRun(id string, seed int64, cycles int) *trace.Scenario {
 	return sc
 }
 
+func pairIndex(id string) int {
+	n := 0
+	fmt.Sscanf(id, "pair-%d", &n)
+	return n
+}
+
 type streamJob struct {
 	id       string
 	kind     string
@@ -311,9 +315,9 @@ func streamJobs(c *Ctx) []streamJob {
 	for i := 0; i < ns; i++ {
 		jobs = append(jobs, streamJob{fmt.Sprintf("solo-%d", i), "samples", rng.Int63n(1 << 40), 1 << 17, true})
 	}
-	np, pc := 6, 1<<16
+	np, pc := 16, 1<<17
 	if c.Thorough() {
-		np, pc = 60, 1<<18
+		np, pc = 64, 1<<19
 	}
 	for i := 0; i < np; i++ {
 		jobs = append(jobs, streamJob{fmt.Sprintf("pair-%d", i), "pair", rng.Int63n(1 << 40), pc, true})
@@ -330,7 +334,8 @@ func apuGenStream(c *Ctx, w *trace.Writer) {
 	parallel(len(jobs), func(i int) {
 		j := jobs[i]
 		if j.kind == "pair" {
-			res[i] = pairRun(j.id, j.seed, j.cycles)
+			// every channel x side in turn
+			res[i] = pairRun(j.id, j.seed, j.cycles, pairIndex(j.id)%4, pairIndex(j.id)/4%2)
 		} else if j.attached {
 			res[i] = streamRun(j.id, j.seed, j.cycles, j.attached)
 		} else {
@@ -358,7 +363,7 @@ func streamRunGuard(id string, seed int64, cycles int) *trace.Scenario {
 func apuRerunStream(c *Ctx, w *trace.Writer, s *trace.Scenario) {
 	r := s.Reset.([]any)
 	if trace.Str(r[2]) == "pair" {
-		w.Put(pairRun(s.ID, int64(trace.Int(r[3])), trace.Int(r[4])))
+		w.Put(pairRun(s.ID, int64(trace.Int(r[3])), trace.Int(r[4]), trace.Int(r[5]), trace.Int(r[6])))
 	} else {
 		if trace.Int(r[0]) == 1 {
 			w.Put(streamRun(s.ID, int64(trace.Int(r[3])), trace.Int(r[4]), true))
